@@ -2,6 +2,7 @@
 Line-protocol loop.  stdin: `<prop> <case-term> <impl-obs-term>` per line; stdout: one verdict line
 per input line.  `flags` as the first argument prints the deviation flags read off the tables.
 -/
+import Ggql.Driver.C04
 import Ggql.Driver.C05
 import Ggql.Driver.C09
 import Ggql.Driver.C12
@@ -37,6 +38,7 @@ def handleLine (tb : Tables) (line : String) : String :=
   | none => "bad-op"
   | some (prop, c, impl) =>
     match prop with
+    | "C04" => C04.handle tb c impl
     | "C05" => C05.handle tb c impl
     | "C09" => C09.handle tb c impl
     | "C12" => C12.handle tb c impl
@@ -44,7 +46,7 @@ def handleLine (tb : Tables) (line : String) : String :=
     | "C20" => C20.handle tb c impl
     | _ => "bad-op"
 
-def allFlags (tb : Tables) : List (String × List (String × Bool)) := [("C05", C05.flags tb), ("C09", C09.flags tb), ("C12", C12.flags tb), ("C19", C19.flags tb), ("C20", C20.flags tb)]
+def allFlags (tb : Tables) : List (String × List (String × Bool)) := [("C04", C04.flags tb), ("C05", C05.flags tb), ("C09", C09.flags tb), ("C12", C12.flags tb), ("C19", C19.flags tb), ("C20", C20.flags tb)]
 
 partial def loop (tb : Tables) (h : IO.FS.Stream) (out : IO.FS.Stream) : IO Unit := do
   let line ← h.getLine
